@@ -1235,6 +1235,22 @@ Fixpoint validate_kw (sch : schema) (s : sess) (e : nat) (kw : list (nat * arg))
     end
   end.
 
+(* Entity.set: the simple keys are updated in the indexes first, in declaration order; a conflict stops the loop *)
+Fixpoint setmany_scan (o : oid) (e : nat) (acc : sess) (changed : bool) (l : list (nat * val)) : sess * bool * bool :=
+  match l with
+  | [] => (acc, changed, false)
+  | (a, v) :: t =>
+    if key_conflict acc o e a v then (acc, changed, true)
+    else let acc' := key_set_index_only acc o e a v in
+         setmany_scan o e acc' (changed || negb (val_eqb (match obj_val acc o a with Some ov => ov | None => VNone end) v)) t
+  end.
+
+(* the successful Entity.set, one attribute at a time: key (index and value), reference (both ends), plain value *)
+Definition setmany_apply (sch : schema) (o : oid) (e : nat) (acc : sess) (p : nat * val) : sess :=
+  if attr_uniq sch e (fst p) then key_set_checked sch acc o e (fst p) (snd p)
+  else if attr_is_ref sch e (fst p) then ref_set_direct sch acc o (fst p) (snd p)
+  else upd_obj acc o (fun ob => ob_put_val ob (fst p) (Some (snd p))).
+
 Definition setmany_op (sch : schema) (s : sess) (h : nat) (kw : list (nat * arg)) : sess * res :=
   match hget s h with
   | None => (s, RErr EBadHandle)
@@ -1259,41 +1275,26 @@ Definition setmany_op (sch : schema) (s : sess) (h : nat) (kw : list (nat * arg)
         match r0 with
         | Err s1 er => (s1, RErr er)
         | Ok s1 _ =>
-          if is_del (obj_st s1 o) then (mark_dirty s1 27, RErr EAssertion) else
+          if is_del (obj_st s1 o) || negb (Nat.eqb (obj_ent s1 o) e) then (mark_dirty s1 27, RErr EAssertion) else
           let s2 := fold_left (fun acc p => mark_written acc o (fst p)) avs s1 in
-          let plain := forallb (fun p => negb (attr_is_ref sch e (fst p)) && negb (attr_uniq sch e (fst p))) avs in
-          match cavs, plain, avs with
-          | [], true, _ :: _ => (fold_left (fun acc p => upd_obj acc o (fun ob => ob_put_val ob (fst p) (Some (snd p)))) avs s2, ROk)
-          | _, _, _ =>
+          (* (the code has a shortcut for calls with plain attributes only: same result as the general path) *)
             let avs' := filter (fun p => negb (oval_eqb (obj_val s2 o (fst p)) (Some (snd p)))) avs in
             (* simple keys in declaration order *)
             let keys := flat_map (fun a => filter (fun p => Nat.eqb (fst p) a && attr_uniq sch e a) avs') (seq O (nattrs sch e)) in
-            let fix scan (acc : sess) (changed : bool) (l : list (nat * val)) : sess * bool * bool :=
-                match l with
-                | [] => (acc, changed, false)
-                | (a, v) :: t =>
-                  if key_conflict acc o e a v then (acc, changed, true)
-                  else let acc' := key_set_index_only acc o e a v in
-                       scan acc' (changed || negb (val_eqb (match obj_val acc o a with Some ov => ov | None => VNone end) v)) t
-                end in
-            let '(s_idx_only, changed, conflict) := scan s2 false keys in
+            let '(s_idx_only, changed, conflict) := setmany_scan o e s2 false keys in
             (* Entity.set updates reverse sides, then collections, and only then vals: with a reference and a collection
                argument in one call the collection code observes the stale reference; not modelled *)
             if match cavs with [] => false | _ => existsb (fun p => attr_is_ref sch e (fst p)) avs' end then (mark_declined s, RDecline)
             else if conflict then ((if changed then mark_dirty s_idx_only 2 else s2), RErr ECacheIndex)
             else
               (* success path, atomically per attribute *)
-              let s3 := fold_left (fun acc p =>
-                          if attr_uniq sch e (fst p) then key_set_checked sch acc o e (fst p) (snd p)
-                          else if attr_is_ref sch e (fst p) then ref_set_direct sch acc o (fst p) (snd p)
-                          else upd_obj acc o (fun ob => ob_put_val ob (fst p) (Some (snd p)))) avs' s2 in
+              let s3 := fold_left (setmany_apply sch o e) avs' s2 in
               match fold_out (fun acc p => coll_assign sch acc o (fst p) (snd p)) s3 cavs with
               | Ok s4 _ => (s4, ROk)
               | Err _ er =>
                 (* a collection assignment failed: reverse sides are undone, cache.indexes is not (known finding) *)
                 ((if changed || Nat.ltb 1 (length cavs) then mark_dirty s_idx_only 3 else s2), RErr er)
               end
-          end
         end
       end
   end.
